@@ -39,7 +39,7 @@ GROUP = {
     'PerDomainMetric': WRAP,
 }
 
-SCORE_KINDS = ('random', 'ties', 'const', 'extreme', 'tie-extreme', 'ints', 'signed-zeros', 'int-typed')
+SCORE_KINDS = ('random', 'ties', 'const', 'extreme', 'tie-extreme', 'ints', 'signed-zeros', 'int-typed', 'offset')
 
 
 def discover(fedjax):
@@ -82,6 +82,10 @@ def make_scores(rng, rows, C, kind):
   elif kind == 'tie-extreme':
     vals = np.array([-1e30, 1e30, 0.0, 2.0])
     x = vals[rng.randint(4, size=(rows, C))]
+  elif kind == 'offset':
+    # ordinary differences between classes riding on a large common offset (1e4 .. 1e6, or exactly equal huge scores): the
+    # loss is a function of the DIFFERENCES
+    x = rng.randn(rows, C) * [0.0, 0.5, 3.0][rng.randint(3)] + [1e4, 1e5, 1e6, -1e5, 1e30][rng.randint(5)]
   elif kind == 'ints':
     x = rng.randint(-3, 4, size=(rows, C)).astype(np.float64)
   elif kind == 'signed-zeros':
